@@ -88,6 +88,7 @@ class Engine:
         self.auto_inline = False
         self.compress_info = {}
         self.inv_funcs = {}
+        self.trusted_facts = set()
         self.inlined = set()
         self.used_contracts = set()
         self.spec_mode = False       # evaluating contract clauses: no obligations, no path splitting on and/or
